@@ -60,7 +60,7 @@ def run_shard(ctx):
         if ctx.out_of_time():
             ctx.count("stopped_on_time_budget")
             break
-        cfg = M.gen_config(rng, long_adapters=ctx.tier == "thorough")
+        cfg = M.gen_config(rng, long_adapters=True if ctx.tier == "thorough" else 0.12)
         ad = M.build(cfg)
         if ad is None:
             ctx.count("config_rejected_or_out_of_domain")
